@@ -6,7 +6,20 @@ of `only-in` / `prefix-in`), every acyclic module graph (modules listed in depen
 sequence of evaluation requests, failing ones included; nothing is bounded.
 -/
 import SteelVerif.C14.LemmasTbl
+import SteelVerif.C14.GenConsts
 namespace SteelVerif.C14
+
+/-! ## 0. What the model takes from the source (regenerated from /repo on every run) -/
+
+/-- The strings `mangle` is built from are the code's `MANGLER_PREFIX` / `MANGLER_SEPARATOR`, the
+module prefix is `prefix ++ id ++ separator` and is prepended by the mangler, and the key of a file
+module — what "the same module" means for the compiled-module table, the metadata and the mangling id —
+is its canonical path (`try_canonicalize` = `fs::canonicalize`, applied to every require path and every
+module name).  The model identifies a module by its number `k` on exactly that ground: all spellings of
+a path to one file are one module. -/
+theorem model_constants_match_source :
+    Gen.manglerPrefix = manglerPrefix ∧ Gen.manglerSeparator = manglerSeparator ∧
+    Gen.prefixIsPrefixIdSeparator = true ∧ Gen.keyIsCanonicalPath = true := by decide
 
 /-! ## 1. Name mangling -/
 
